@@ -23,10 +23,10 @@ type gthread struct {
 }
 
 type sched struct {
-	threads []*gthread
-	cur     *gthread
-	kill    chan struct{}
-	abort   interface{} // panic value to re-raise on the main goroutine
+	threads  []*gthread
+	cur      *gthread
+	kill     chan struct{}
+	abort    interface{} // panic value to re-raise on the main goroutine
 	mainWake chan struct{}
 }
 
